@@ -1,7 +1,94 @@
 import AmqModel.Model.ConnRun
-namespace AmqModel.Props.C04
-open AmqModel.Conn
+import AmqModel.Lemmas.ConnC04
+/-!
+# C04 — a synchronous call returns the server's reply to that very call
 
-theorem placeholder : (Conn.init 1 1).dead = false := rfl
+Property theorems only; helper lemmas live in `AmqModel/Lemmas/ConnC04.lean` (on top of the
+shared `AmqModel/Lemmas/Conn.lean`).
+-/
+namespace AmqModel.Props.C04
+open AmqModel.Conn AmqModel.Collector
+
+/-- The channel a frame is addressed to. -/
+def Frame.chan : Frame → Nat
+  | .heartbeat ch => ch
+  | .method ch _ _ _ => ch
+  | .header ch _ _ _ => ch
+  | .body ch _ => ch
+
+/-- REPLY ROUTING. In the steady state a generic reply on channel `n` (any of the 13 `…Ok`
+    methods, with whatever fields the server put in it) is appended — verbatim — to the reply
+    queue of the handle that owns channel `n`, and nothing else in the whole state changes. -/
+theorem reply_routing (c : Conn) (n cls mid : Nat) (fields : List Field) (dc df : Bytes) (slot : Slot)
+    (hs : c.st = .steady) (hn : n ≠ 0) (hslot : lookupN n c.slots = some slot)
+    (hg : isGenericReply cls mid = true)
+    (halive : (getLink c slot.lid).clientAlive = true) (hroom : (getLink c slot.lid).replies.length < 2) :
+    process c (.method n cls mid fields) dc df =
+      (setLink c slot.lid { (getLink c slot.lid) with
+          replies := (getLink c slot.lid).replies ++ [.method cls mid fields] }, none) := by
+  rw [process_generic_reply hs hn fields dc df hslot hg, sendReply_ok halive hroom]
+
+/-- A reply for a channel that is not open ends the connection; it is never handed to anybody. -/
+theorem reply_for_closed_channel (c : Conn) (n cls mid : Nat) (fields : List Field) (dc df : Bytes)
+    (hs : c.st = .steady) (hn : n ≠ 0) (hslot : lookupN n c.slots = none) (hg : isGenericReply cls mid = true) :
+    process c (.method n cls mid fields) dc df = (c, some (.bogusChannel n)) :=
+  process_generic_noslot hs hn fields dc df hslot hg
+
+/-- NEVER TO ANOTHER CHANNEL. Whatever frame arrives for channel `n ≠ 0`, in whatever state, the
+    reply queue of every handle other than the owner of channel `n` is left exactly as it was —
+    also when the frame is a violation, fails part-way or closes channel `n`. -/
+theorem replies_only_to_owner (c : Conn) (f : Frame) (dc df : Bytes) (lid : Nat)
+    (hn : Frame.chan f ≠ 0)
+    (hother : ∀ slot, lookupN (Frame.chan f) c.slots = some slot → slot.lid ≠ lid) :
+    (getLink (process c f dc df).1 lid).replies = (getLink c lid).replies := by
+  have e : Frame.chan f = Frame.channel f := by cases f <;> rfl
+  rw [e] at hn hother
+  exact process_replies_other c f dc df lid hn hother
+
+/-- A handle receives its replies in the order they were queued (the queue is FIFO) and each
+    exactly once: receiving pops the head. -/
+theorem recv_is_fifo (c : Conn) (label cl : Label) (lid : Nat) (r : Reply) (rest : List Reply)
+    (hh : lookupS label c.handles = some lid) (hq : (getLink c lid).replies = r :: rest) :
+    (clientRecv c label cl).2 = .got r ∧
+    (getLink (clientRecv c label cl).1 lid).replies = rest :=
+  clientRecv_cons cl hh hq
+
+/-- Blocking: nothing is returned while the queue is empty and the I/O thread is alive … -/
+theorem recv_waits (c : Conn) (label cl : Label) (lid : Nat)
+    (hh : lookupS label c.handles = some lid) (hq : (getLink c lid).replies = [])
+    (hio : (getLink c lid).ioAlive = true) :
+    clientRecv c label cl = (c, .empty) := by
+  rw [clientRecv_nil cl hh hq, hio]; rfl
+
+/-- … and the caller is released (EventLoopDropped) once the I/O-thread end is gone. -/
+theorem recv_released (c : Conn) (label cl : Label) (lid : Nat)
+    (hh : lookupS label c.handles = some lid) (hq : (getLink c lid).replies = [])
+    (hio : (getLink c lid).ioAlive = false) :
+    clientRecv c label cl = (c, .disconnected) := by
+  rw [clientRecv_nil cl hh hq, hio]; rfl
+
+/-- With one call outstanding per handle and a server that answers each call once, the
+    bounded(2) reply queue never overflows: a reply always finds room when at most one entry is
+    queued (the second place is for an asynchronous server close). -/
+theorem reply_queue_has_room (c : Conn) (lid : Nat) (r : Reply)
+    (halive : (getLink c lid).clientAlive = true) (h : (getLink c lid).replies.length ≤ 1) :
+    (sendReply c lid r).2 = none ∧
+    (getLink (sendReply c lid r).1 lid).replies = (getLink c lid).replies ++ [r] := by
+  rw [sendReply_ok halive (by omega)]
+  exact ⟨rfl, by rw [getLink_setLink_self]⟩
+
+/-- Consume-ok, cancel-ok and get-empty are routed the same way (to the owner's queue, at its end). -/
+theorem get_empty_routing (c : Conn) (n : Nat) (fields : List Field) (dc df : Bytes) (slot : Slot)
+    (hs : c.st = .steady) (hn : n ≠ 0) (hslot : lookupN n c.slots = some slot) :
+    process c (.method n 60 72 fields) dc df = sendReply c slot.lid .getNone :=
+  process_getEmpty hs hn fields dc df hslot
+
+example :
+    let c0 := Conn.init 4 4
+    let c1 := (allocRequest c0 (some 2)).1
+    let c2 := (handleEvent c1 .alloc).1
+    let c3 := (allocReply c2 "H").1
+    let c4 := (process c3 (.method 2 50 11 [.bytes [113], .nat 3, .nat 4]) [] []).1
+    (clientRecv c4 "H" "-").2 = .got (.method 50 11 [.bytes [113], .nat 3, .nat 4]) := by decide
 
 end AmqModel.Props.C04
